@@ -44,7 +44,7 @@ BOUNDED = {
  'C17': [('bounded/html', ['-n', '3'], ['-n', '4'],
           'the HTML-to-tree mapping of ReadHtml: documents assembled from 25 markup fragments after a doctype, compared node by node with the golang.org/x/net/html parse tree (local names, attributes minus xmlns with prefixes stripped, text, comments, no namespaces), incl. a 300-deep and a 2000-wide document')],
  'C19': [('bounded/unmarshal', [], [],
-          'Unmarshal (reflection): a 27-field struct of every supported kind, pointer depths 0-2, slices, nested structs and untagged fields, through *T and **T, four slice targets, compared with tag-by-tag evaluation; 23 unsupported targets / wrong shapes must yield errors without panic; a self-referential type probed in a child process')],
+          'Unmarshal (reflection): a 31-field struct of every supported kind (incl. values at and beyond 2^63), pointer depths 0-2, slices, nested structs and untagged fields, through *T and **T, four slice targets, compared with tag-by-tag evaluation; 23 unsupported targets / wrong shapes must yield errors without panic; a self-referential type probed in a child process')],
  'C10': [('bounded/store', ['-n', '7'], ['-n', '8'],
           'event loop of store.createInMemory: every Parser-contract-conforming event stream up to N events through the real store, compared with an independently built tree (nesting, positions, parent/list consistency, owned namespace nodes), plus one flat stream of 10^6 elements')],
 }
